@@ -36,6 +36,11 @@ CONFIG = {
              "deprecated Tree.<stat>() aliases. gamma: strictly binary exactly-ultrametric trees with >= 3 leaves "
              "(dyadic or float heights) against the Pybus-Harvey formula from inter-node intervals, child-order "
              "permutation, non-ultrametric rejection, and the documented ValueError for non-binary / 2-leaf trees. "
+             "history: ONE tree object (general or ultrametric lengths) is queried (num_lineages_at, root-distance "
+             "functions, forced / disabled / checked calc_node_ages, node_ages, resolve_node_depths/ages), modified "
+             "through public calls (scale_edges, edge.length assignment, remove_child of a leaf, new_child, "
+             "reroot_at_node) and queried again for 1-3 rounds; every answer is compared with the oracle on a fresh "
+             "snapshot of the current state (pybus_harvey_gamma, which documents reuse of existing ages, is left out). "
              "explicit: hand-written boundary cases incl. DESIGN.md's ((a:1.9,b:1):1,c:3.8) at precision 1.0. "
              "Non-trivial = >= 2 leaves (ages/depths) or >= 3 leaves (stats/gamma); distinct = (sub-check, ordered "
              "tree with lengths, options)."),
@@ -226,6 +231,36 @@ def gamma_cases(draw, max_leaves):
         p = DEFAULT_PRECISION if prec == "default" else prec
         case["shift"] = [draw(st.integers(0, m - 1)), draw(st.sampled_from([2.0 * p, 10.0 * p]))]
     return case
+
+
+HISTORY_QUERIES = ["lineages", "lineages", "lineages", "depthfns", "max_distance", "minmax", "forced_max", "forced_min",
+                   "ages_disabled", "ages_checked", "node_ages", "resolve"]
+HISTORY_MUTATIONS = ["scale", "scale", "set_length", "add_length", "remove_leaf", "add_leaf", "reroot"]
+
+
+@st.composite
+def history_cases(draw, max_leaves):
+    """One tree object queried, modified through public calls, and queried again (2-4 rounds)."""
+    if draw(st.booleans()):
+        spec, _ = draw(ultra_specs(draw(st.sampled_from([2, 3, 3, 4])), max_leaves, heights="dyadic", zero_ok=False))
+        lenpat = "ultrametric"
+    else:
+        sl = draw(shapes.with_lengths(shapes.shapes(min_leaves=draw(st.sampled_from([2, 3, 3, 4])), max_leaves=max_leaves,
+                                                    max_arity=4, unifurcations=True),
+                                      patterns=("unit", "posdyadic", "posdyadic", "dyadic", "float")))
+        spec, lenpat = sl["spec"], sl["lenpat"]
+    queries = st.lists(st.sampled_from(HISTORY_QUERIES), min_size=1, max_size=3)
+    steps = []
+    for _ in range(draw(st.integers(1, 3))):
+        mut = draw(st.sampled_from(HISTORY_MUTATIONS))
+        if mut == "scale":
+            val = draw(st.sampled_from([0.5, 0.5, 2.0, 0.25, 3.0]))
+        else:
+            val = draw(st.integers(1, 24)) / 8.0
+        steps.append({"mut": mut, "target": draw(st.integers(0, 400)), "val": val, "flag": draw(st.booleans()),
+                      "queries": draw(queries)})
+    return {"spec": spec, "lenpat": lenpat, "first": draw(queries), "steps": steps,
+            "dsel": draw(st.lists(st.integers(0, 400), min_size=12, max_size=12))}
 
 
 # ---------------------------------------------------------------------------
@@ -681,6 +716,164 @@ def check_depths(ctx, case):
 
 
 # ---------------------------------------------------------------------------
+# sub-check: history (the same tree object is queried, modified, queried again)
+# ---------------------------------------------------------------------------
+
+def history_query(ctx, tree, rt, q, dsel, tag):
+    """One query on the tree in its CURRENT state against the oracle on the current snapshot `rt`.  Only calls that are
+    documented to (re)calculate are used (pybus_harvey_gamma, which documents reuse of existing ages, is not)."""
+    from dendropy.utility import error
+    nodes = rt.nodes()
+    nonroot = [i for i in nodes if i != rt.root]
+    leaves = rt.leaves()
+    dep = ref_depths(rt)
+    H = max(dep.values())
+    exact = tree_is_exact(rt)
+    lo, hi = ref_tip_ranges(rt)
+    slack = 1e-12 * (1.0 + H)
+
+    def same(a, b):
+        return a == b if exact else close(a, b, H, 1e-12)
+    ctx.cls("history:query:" + q)
+    if q == "lineages":
+        check_lineages(ctx, tree, rt, dsel, exact and all(rt.length[i] > 0 for i in nonroot), tag)
+    elif q == "depthfns":
+        check_depth_functions(ctx, tree, rt, "default", "default", tag)
+    elif q == "max_distance":
+        mx = ctx.call("C17.max_distance_from_root", tree.max_distance_from_root)
+        ctx.check(same(mx, max(dep[i] for i in leaves)), "max_distance_from_root", "C17.max_distance_from_root",
+                  lambda: "got %r want %r; %s" % (mx, max(dep[i] for i in leaves), tag))
+    elif q == "minmax":
+        mm = ctx.call("C17.minmax_leaf_distance_from_root", tree.minmax_leaf_distance_from_root)
+        want = (min(dep[i] for i in leaves), max(dep[i] for i in leaves))
+        ctx.check(len(mm) == 2 and same(mm[0], want[0]) and same(mm[1], want[1]), "minmax_leaf_distance_from_root",
+                  "C17.minmax_leaf_distance", lambda: "got %r want %r; %s" % (mm, want, tag))
+    elif q in ("forced_max", "forced_min"):
+        force = q[7:]
+        got = ctx.call("C17.calc_node_ages", tree.calc_node_ages, **{"is_force_%s_age" % force: True})
+        want = hi if force == "max" else lo
+        for i in nodes:
+            a = rt.obj[i].age
+            ctx.check(a is not None and same(a, want[i]), "forced_age_is_%s_over_children" % force, "C17.forced_age:" + force,
+                      lambda: "node over %s: age %r want %r; %s" % (sorted(rt.clusters()[i]), a, want[i], tag))
+        ctx.check(len(got) == len(nodes) and all(same(x, y) for x, y in zip(sorted(got), sorted(want.values()))),
+                  "returned_ages_are_the_node_ages", "C17.returned_ages:forced",
+                  lambda: "got %r want %r; %s" % (sorted(got), sorted(want.values()), tag))
+    elif q in ("ages_disabled", "ages_checked", "node_ages"):
+        tips = [dep[i] for i in leaves]
+        spread = max(tips) - min(tips)
+        p = DEFAULT_PRECISION
+        band = 1e-9 * (1.0 + H)
+        if q == "ages_disabled":
+            fn, kw = tree.calc_node_ages, {"ultrametricity_precision": False}
+        elif q == "ages_checked":
+            fn, kw = tree.calc_node_ages, {}
+        else:
+            fn, kw = tree.node_ages, {}
+        try:
+            got = ctx.call("C17.calc_node_ages", fn, _allowed=(ValueError,), **kw)
+        except ValueError as e:
+            ctx.check(isinstance(e, error.UltrametricityError), "rejection_is_an_UltrametricityError", "C17.error_type",
+                      lambda: "%s; %s" % (type(e).__name__, tag))
+            if q == "ages_disabled":
+                ctx.fail("no_rejection_when_check_disabled_or_forced", "C17.reject_when_disabled", "spread=%r; %s" % (spread, tag))
+            elif spread <= p - band:
+                ctx.fail("tree_within_precision_is_accepted", "C17.ultrametric_accept", "spread=%r; %s" % (spread, tag))
+            return
+        if q != "ages_disabled" and spread > p + band:
+            worst = local_first_child_deviation(rt)
+            route_rejection_miss(ctx, {"history": tag}, worst, p, band,
+                                 "spread=%r > precision=%r, largest first-child-vs-sibling difference %r; %s" % (spread, p, worst, tag))
+            return
+        for i in nodes:
+            a = rt.obj[i].age
+            ok = a is not None and (a == hi[i] if (exact and spread == 0) else lo[i] - slack - band <= a <= hi[i] + slack + band)
+            ctx.check(ok, "age_is_distance_to_descendant_tips", "C17.age_exact" if exact and spread == 0 else "C17.age_range",
+                      lambda: "node over %s: age %r want [%r, %r]; %s" % (sorted(rt.clusters()[i]), a, lo[i], hi[i], tag))
+        ctx.check(sorted(got) == sorted(rt.obj[i].age for i in nodes), "returned_ages_are_the_node_ages",
+                  "C17.returned_ages:" + q, lambda: "got %r; %s" % (sorted(got), tag))
+    elif q == "resolve":
+        deepest = max(dep[i] for i in leaves)
+        dcache = ctx.call("C17.resolve_node_depths", tree.resolve_node_depths)
+        acache = ctx.call("C17.resolve_node_ages", tree.resolve_node_ages)
+        for i in nodes:
+            o = rt.obj[i]
+            ctx.check(o in dcache and same(dcache[o], dep[i]) and same(o.depth, dep[i]),
+                      "resolve_node_depths_is_distance_from_root", "C17.resolve_depths",
+                      lambda: "node over %s: %r want %r; %s" % (sorted(rt.clusters()[i]), dcache.get(o), dep[i], tag))
+            ctx.check(o in acache and same(acache[o], deepest - dep[i]) and same(o.age, deepest - dep[i]),
+                      "resolve_node_ages_is_time_before_deepest_tip", "C17.resolve_ages",
+                      lambda: "node over %s: %r want %r; %s" % (sorted(rt.clusters()[i]), acache.get(o), deepest - dep[i], tag))
+    else:
+        raise runner.HarnessError(q)
+
+
+def history_mutate(ctx, tree, rt, step):
+    """Modify the tree through public calls; returns a short description."""
+    nodes = rt.nodes()
+    nonroot = [i for i in nodes if i != rt.root]
+    kind, k, val = step["mut"], step["target"], step["val"]
+    if kind == "remove_leaf":
+        cand = [i for i in rt.leaves() if i != rt.root and len(rt.children[rt.parent[i]]) >= 2]
+        if len(rt.leaves()) < 3 or not cand:
+            kind = "scale"
+            val = 0.5
+        else:
+            i = cand[k % len(cand)]
+            ctx.call("C17.history_mutation", rt.obj[rt.parent[i]].remove_child, rt.obj[i])
+            return "remove_leaf(%s)" % rt.leaf_id(i)
+    if kind == "reroot":
+        cand = [i for i in rt.internals() if i != rt.root]
+        if not cand or rt.length[rt.root] is not None:
+            kind = "scale"
+            val = 2.0
+        else:
+            i = cand[k % len(cand)]
+            ctx.call("C17.history_mutation", tree.reroot_at_node, rt.obj[i], suppress_unifurcations=step["flag"])
+            return "reroot_at_node(%s, suppress_unifurcations=%r)" % (sorted(rt.clusters()[i]), step["flag"])
+    if kind == "add_leaf":
+        i = nodes[k % len(nodes)]
+        ctx.call("C17.history_mutation", rt.obj[i].new_child, edge_length=val)
+        return "new_child(under %s, edge_length=%r)" % (sorted(rt.clusters()[i]), val)
+    if kind in ("set_length", "add_length") and nonroot:
+        i = nonroot[k % len(nonroot)]
+        e = rt.obj[i].edge
+        e.length = val if kind == "set_length" else e.length + val
+        return "%s(edge above %s, %r)" % (kind, sorted(rt.clusters()[i]), val)
+    ctx.call("C17.history_mutation", tree.scale_edges, val)
+    return "scale_edges(%r)" % val
+
+
+def check_history(ctx, case):
+    tree, rt = build(case["spec"])
+    start = rt.canon(ordered=True, lengths=True)
+    log = []
+    ctx.cls("history:lenpat:%s" % case["lenpat"])
+    ctx.nontrivial(["history", start, case["first"], [(s["mut"], s["target"], s["val"], s["flag"], s["queries"]) for s in case["steps"]]])
+    ctx.sample("history", case)
+
+    def tag():
+        return "start=%s history=%s now=%s" % (start, " -> ".join(log), rt.canon(ordered=True, lengths=True))
+    for q in case["first"]:
+        log.append(q)
+        history_query(ctx, tree, rt, q, case["dsel"], tag())
+    for step in case["steps"]:
+        what = history_mutate(ctx, tree, rt, step)
+        log.append(what)
+        ctx.cls("history:mutation:" + what.split("(")[0])
+        rt, problems = snapshot(tree)
+        if problems:
+            ctx.cls("history:tree_malformed_after_mutation_stopped")   # not this property's clause (C03/C07)
+            return
+        if any(rt.length[i] is None or rt.length[i] < 0 for i in rt.nodes() if i != rt.root):
+            ctx.cls("history:length_missing_after_mutation_stopped")
+            return
+        for q in step["queries"]:
+            log.append(q)
+            history_query(ctx, tree, rt, q, case["dsel"], tag())
+
+
+# ---------------------------------------------------------------------------
 # sub-check: statistics
 # ---------------------------------------------------------------------------
 
@@ -952,16 +1145,17 @@ def explicit_cases():
 # ---------------------------------------------------------------------------
 
 SUBCHECKS = {"ages": check_ages, "explicit": check_ages, "depths": check_depths, "stats": check_stats,
-             "gamma": check_gamma}
+             "gamma": check_gamma, "history": check_history}
 
 
 def run(ctx):
     quick = ctx.tier == "quick"
     max_leaves = 10 if quick else 40
-    totals = {"ages": 2000, "depths": 700, "stats": 900, "gamma": 700} if quick else \
-        {"ages": 24000, "depths": 8000, "stats": 10000, "gamma": 8000}
+    totals = {"ages": 2000, "depths": 700, "stats": 900, "gamma": 700, "history": 800} if quick else \
+        {"ages": 24000, "depths": 8000, "stats": 10000, "gamma": 8000, "history": 10000}
     runner.run_items(ctx, "explicit", explicit_cases(), check_ages)
     runner.run_given(ctx, "ages", age_cases(max_leaves), check_ages, totals["ages"] / ctx.nshards)
     runner.run_given(ctx, "depths", depth_cases(max_leaves), check_depths, totals["depths"] / ctx.nshards)
     runner.run_given(ctx, "stats", stat_cases(max_leaves), check_stats, totals["stats"] / ctx.nshards)
     runner.run_given(ctx, "gamma", gamma_cases(max_leaves), check_gamma, totals["gamma"] / ctx.nshards)
+    runner.run_given(ctx, "history", history_cases(max_leaves), check_history, totals["history"] / ctx.nshards)
